@@ -17,7 +17,8 @@ PROPS = [f'C{i:02d}' for i in range(1, 21)]
 def run_property(prop: str, tier: str, prog: Program) -> Check:
     mod = importlib.import_module(f'pjx.props.{prop.lower()}')
     ck = Check(prop, tier, int(os.environ.get('VERIF_SEED', '0') or 0))
-    mod.run(ck, prog)
+    from .normal import normalised
+    mod.run(ck, normalised(prog))
     return ck
 
 
